@@ -52,8 +52,8 @@ def plan(tier, seed):
     if tier == "quick":
         return ([{"kind": "split_exhaustive"}, {"kind": "build_sweep"}] + [{"kind": "build", "n": 3000} for _ in range(6)] +
                 [{"kind": "validate", "n": 450} for _ in range(5)] + [{"kind": "convert_sweep"}] + [{"kind": "convert", "n": 30000} for _ in range(2)])
-    return ([{"kind": "split_exhaustive"}, {"kind": "build_sweep"}] + [{"kind": "build", "n": 160000} for _ in range(6)] +
-            [{"kind": "validate", "n": 25000} for _ in range(5)] + [{"kind": "convert_sweep"}] + [{"kind": "convert", "n": 1500000} for _ in range(2)])
+    return ([{"kind": "split_exhaustive"}, {"kind": "build_sweep"}] + [{"kind": "build", "n": 480000} for _ in range(6)] +
+            [{"kind": "validate", "n": 75000} for _ in range(5)] + [{"kind": "convert_sweep"}] + [{"kind": "convert", "n": 4500000} for _ in range(2)])
 
 
 # ---------------------------------------------------------------------------------------------
